@@ -1,0 +1,11 @@
+//go:build verif
+
+package tsdb
+
+// Simulation hooks (build tag verif).
+
+// VerifResetFamilyManager replaces the process-wide family manager: a restarted node has no open families.
+func VerifResetFamilyManager() {
+	_ = GetFamilyManager()
+	fManager = newFamilyManager()
+}
